@@ -92,10 +92,22 @@ static void run_mode(const char *mode)
 		else if (!strcmp(mode, "post")) p = typed ? tw_to(tw_iterate_post_order(&it, troot)) : bintree_iterate_post_order(&it, root);
 		else p = bintree_iterate_list(&it, root, is_list);
 		int guard = 3 * n + 5;
+		static bintree_node_t dnode;
+		bintree_iterator_t decoy, *sel[2];
+		unsigned lock = 0;
+		memset(&dnode, 0, sizeof(dnode));
+		bintree_iterate_in_order(&decoy, &dnode);
 		for (;;) {
 			emit_step(idx(p));
 			if (!p || !guard--) break;
-			p = typed ? tw_to(tw_next(&it)) : bintree_next(&it);
+			if (typed) p = tw_to(tw_next(&it));
+			else if (altw & 2) {
+				/* a caller that walks two trees in lock step: the argument has a side effect, a function
+				 * evaluates it once (the other iterator stands on a one-node tree of its own) */
+				sel[0] = &it; sel[1] = &decoy;
+				p = bintree_next(sel[lock++ & 1]);
+				lock++;
+			} else p = bintree_next(&it);
 		}
 		/* asking again after the end: still the end, the tree still as it was */
 		for (int again = 0; again < 2 && !p; again++) { p = bintree_next(&it); emit_step(idx(p)); }
